@@ -125,7 +125,7 @@ pub fn hook(gn: &mut Gen, w: &mut World) -> Option<Step> {
                 let i = gn.rng().below(w.welcomes.len() as u64) as usize;
                 HostileOp::RewrappedWelcome { w: w.welcomes[i].origin, seed }
             } else {
-                HostileOp::HostileWelcome { victim, mode: gn.rng().below(6) as u8, g, seed }
+                HostileOp::HostileWelcome { victim, mode: gn.rng().below(7) as u8, g, seed }
             }
         }
     };
